@@ -1,17 +1,351 @@
-/-! Line-protocol driver for the Solver family: one request per line, first token selects the handler.
-Imports only core-Lean model files under Claripy/ (never Mathlib), so it links as an executable. -/
+import Claripy.Solver.Stack
+import Claripy.Solver.Spec
+import Std.Data.HashMap
+/-! Line-protocol driver for the Solver family (see harness/lib/solverrec.py for the protocol).
+One request per line, one answer per line.  Imports only core-Lean model files. -/
+open Claripy.Solver
 
-def dispatch (line : String) : String :=
+namespace DriverSolver
+
+structure Uni where
+  nvars : Nat := 0
+  widths : Array Nat := #[]
+  strides : Array Nat := #[]
+  dflts : Array Nat := #[]
+  D : Nat := 1
+  /-- varVal[v][x] = bit set of the assignments in which variable v has value x -/
+  varVal : Array (Array Nat) := #[]
+  deriving Inhabited
+
+def Uni.index (u : Uni) (a : Asg) : Nat := Id.run do
+  let mut i := 0
+  for v in [0:u.nvars] do
+    i := i + (a v % 2 ^ u.widths[v]!) * u.strides[v]!
+  return i
+
+def Uni.asg (u : Uni) (i : Nat) : Asg := fun v =>
+  if v < u.nvars then (i / u.strides[v]!) % 2 ^ u.widths[v]! else 0
+
+def Uni.full (u : Uni) : Nat := 2 ^ u.D - 1
+
+inductive Event where
+  | check (a : Answer)
+  | pick (ts : List (List Nat))
+  | simp (ids : List Nat)
+  | cheap (b : Bool)
+  | truth (b : Bool)
+  deriving Inhabited
+
+structure DState where
+  uni : Uni := {}
+  cons : Std.HashMap Nat (Con × Nat) := {}
+  exps : Std.HashMap Nat Exp := {}
+  builds : Std.HashMap String Nat := {}
+  falseId : Nat := 0
+  cls : SolverClass := .Solver
+  world : World := {}
+  /-- reference: per frontend the ids of the constraints the USER added -/
+  added : Array (List Nat) := #[[]]
+  deriving Inhabited
+
+def hexVal (c : Char) : Nat :=
+  if c.isDigit then c.toNat - 48 else if c.toNat ≥ 97 then c.toNat - 87 else c.toNat - 55
+
+def parseHex (s : String) : Nat := s.toList.foldl (fun n c => n * 16 + hexVal c) 0
+
+def parseList (s : String) : List Nat :=
+  if s == "-" || s == "" then [] else (s.splitOn ",").filterMap (·.toNat?)
+
+def parseIntD (s : String) : Int := (s.toInt?).getD 0
+
+def joinNat (l : List Nat) : String := ",".intercalate (l.map toString)
+
+def sortNat (l : List Nat) : List Nat := l.mergeSort (· ≤ ·)
+
+def lexLe : List Nat → List Nat → Bool
+  | [], _ => true
+  | _ :: _, [] => false
+  | a :: as, b :: bs => if a < b then true else if a > b then false else lexLe as bs
+
+def sortTuples (l : List (List Nat)) : List (List Nat) := l.mergeSort lexLe
+
+/-- mask of a semantic function over the whole domain -/
+def maskOf (u : Uni) (f : Asg → Bool) : Nat := Id.run do
+  let mut m := 0
+  for i in [0:u.D] do
+    if f (u.asg i) then m := m ||| (1 <<< i)
+  return m
+
+def conOfMask (u : Uni) (id : Nat) (vars : List Nat) (isFalse : Bool) (conc : Option Bool)
+    (triv : Option (Var × Nat × Nat)) (mask : Nat) : Con :=
+  { id := id, vars := vars, sem := fun a => mask.testBit (u.index a), isFalse := isFalse, conc := conc, triv := triv }
+
+def buildKeyStr : BuildKey → String
+  | .ule e m => s!"ule:{e.id}:{m}"
+  | .uge e m => s!"uge:{e.id}:{m}"
+  | .sle e m => s!"sle:{e.id}:{m}"
+  | .sge e m => s!"sge:{e.id}:{m}"
+  | .ne e v => s!"ne:{e.id}:{v}"
+  | .orEq e vs => s!"oreq:{e.id}:{joinNat (sortNat vs)}"
+
+def missingId : Nat := 999999
+
+def mkEnv (d : DState) (events : Array Event) : Env :=
+  { dflt := fun v => d.uni.dflts.getD v 0
+    oracle := fun _ k => match events[k]? with | some (.check a) => a | _ => .unknown
+    build := fun key =>
+      match d.builds.get? (buildKeyStr key) with
+      | some cid => (match d.cons.get? cid with
+          | some (c, _) => c
+          | none => { id := missingId, vars := key.exp.vars, sem := key.sem })
+      | none => { id := missingId, vars := key.exp.vars, sem := key.sem }
+    falseCon := match d.cons.get? d.falseId with
+      | some (c, _) => c
+      | none => { id := d.falseId, vars := [], sem := fun _ => false, isFalse := true, conc := some false }
+    cheapFalse := fun _ _ k => match events[k]? with | some (.cheap b) => b | _ => false
+    truth := fun _ _ k => match events[k]? with | some (.truth b) => b | _ => false
+    simp := fun _ k => match events[k]? with
+      | some (.simp ids) => ids.filterMap fun i => (d.cons.get? i).map (·.1)
+      | _ => []
+    pick := fun _ _ k => match events[k]? with | some (.pick ts) => ts | _ => [] }
+
+def parseEvent (tok : String) : Option Event :=
+  match tok.splitOn ":" with
+  | ["C", "S", vals, keys] => some (.check (.sat (parseList vals) (parseList keys)))
+  | ["C", "U", core] => some (.check (.unsat (parseList core)))
+  | ["C", "K"] => some (.check .unknown)
+  | ["P", ts] => some (.pick (if ts == "-" then [] else (ts.splitOn "|").map fun t => (t.splitOn ".").filterMap (·.toNat?)))
+  | ["S", ids] => some (.simp (parseList ids))
+  | ["F", b] => some (.cheap (b == "1"))
+  | ["T", b] => some (.truth (b == "1"))
+  | _ => none
+
+/-! ### state dump -/
+
+def showModel (m : PModel) : String := ",".intercalate (m.map fun kv => s!"{kv.1}:{kv.2}")
+
+def showFe (fe : Frontend) (letter : String) : String :=
+  let models := (fe.models.map showModel).mergeSort (· ≤ ·)
+  let core := match fe.cachedCore with | none => "-" | some cs => "[" ++ joinNat (cs.map Con.id) ++ "]"
+  let sat := match fe.cachedSat with | none => "N" | some true => "T" | some false => "F"
+  s!"cons=[{joinNat (fe.constraints.map Con.id)}];wo=[{joinNat (sortNat fe.woAnnot)}];vars=[{joinNat (sortNat fe.variables)}];" ++
+  s!"fin={if fe.finalized then 1 else 0};solver={letter};toadd=[{joinNat (fe.toAdd.map Con.id)}];hashes=[{joinNat (sortNat fe.hashes)}];" ++
+  s!"simp={if fe.simplified then 1 else 0};sat={sat};core={core};models=[{"|".intercalate models}];" ++
+  s!"evalx=[{joinNat (sortNat fe.evalExh)}];maxx=[{joinNat (sortNat fe.maxExh)}];minx=[{joinNat (sortNat fe.minExh)}];" ++
+  s!"maxsx=[{joinNat (sortNat fe.maxSExh)}];minsx=[{joinNat (sortNat fe.minSExh)}]"
+
+def showTag : ZTag → String
+  | .con id => if id == 0 then "?" else toString id
+  | _ => "?"
+
+def letterOf (k : Nat) : String := String.singleton (Char.ofNat (65 + k % 26)) ++ (if k ≥ 26 then toString (k / 26) else "")
+
+def showWorld (w : World) : String := Id.run do
+  let mut order : List Nat := []
+  let mut parts : List String := []
+  let mut i := 0
+  for fe in w.fes do
+    let letter ← match fe.solver with
+      | none => pure "-"
+      | some r =>
+        if !order.contains r then order := order ++ [r]
+        pure (letterOf ((order.idxOf r)))
+    parts := parts ++ [s!"fe{i}" ++ "{" ++ showFe fe letter ++ "}"]
+    i := i + 1
+  let mut k := 0
+  for r in order do
+    let o := w.objs.getD r {}
+    parts := parts ++ [letterOf k ++ "{" ++ s!"scopes={o.frames.length - 1};asserts=[{",".intercalate (o.asserted.map fun c => showTag c.tag)}]" ++ "}"]
+    k := k + 1
+  return " ".intercalate parts
+
+def showOut : Out → String
+  | .unit => "unit"
+  | .bool b => s!"b:{if b then 1 else 0}"
+  | .vals vs => s!"v:[{joinNat (sortNat vs)}]"
+  | .tuples ts => "t:[" ++ "|".intercalate ((sortTuples ts).map fun t => ".".intercalate (t.map toString)) ++ "]"
+  | .int i => s!"i:{i}"
+  | .cons ids => s!"c:[{joinNat ids}]"
+  | .newSolver i => s!"new:{i}"
+  | .err e => "err:" ++ (match e with
+      | .unsat => "unsat" | .giveUp => "giveup" | .value => "value" | .notImpl => "notimpl" | .badChoice => "badchoice")
+
+/-! ### validation of the recorded oracle answers against the MODEL's queries -/
+
+def zconMask (d : DState) (c : ZCon) : Nat :=
+  match c.tag with
+  | .con id => if id != 0 then (match d.cons.get? id with | some (_, m) => m | none => maskOf d.uni c.sem) else maskOf d.uni c.sem
+  | _ => maskOf d.uni c.sem
+
+def queryMask (d : DState) (q : Query) : Nat :=
+  q.all.foldl (fun m c => m &&& zconMask d c) d.uni.full
+
+def exactOn (d : DState) (q : Query) (a : Answer) : Bool :=
+  let qm := queryMask d q
+  match a with
+  | .unknown => true
+  | .unsat _ => qm == 0
+  | .sat vals keys =>
+    let agree := keys.foldl (fun m k => m &&& ((d.uni.varVal.getD k #[]).getD (vals.getD k 0 % 2 ^ d.uni.widths.getD k 0) 0)) d.uni.full
+    qm.testBit (d.uni.index (asgOf vals)) && (agree &&& (d.uni.full ^^^ qm)) == 0
+
+/-! ### request handlers -/
+
+def clsOfString : String → Option SolverClass
+  | "Solver" => some .Solver | "SolverCacheless" => some .SolverCacheless | "SolverStrings" => some .SolverStrings
+  | "SolverCompositeChild" => some .SolverCompositeChild
+  | _ => none
+
+def lookupCons (d : DState) (s : String) : List Con :=
+  (parseList s).filterMap fun i => (d.cons.get? i).map (·.1)
+
+def lookupExp (d : DState) (s : String) : Exp := (s.toNat?.bind d.exps.get?).getD default
+
+def parseOp (d : DState) : List String → Option Op
+  | ["add", cs] => some (.add (lookupCons d cs))
+  | ["satisfiable", ex] => some (.satisfiable (lookupCons d ex))
+  | ["eval", e, n, ex] => some (.eval (lookupExp d e) (n.toNat?.getD 1) (lookupCons d ex))
+  | ["batch_eval", es, n, ex] => some (.batchEval ((parseList es).filterMap d.exps.get?) (n.toNat?.getD 1) (lookupCons d ex))
+  | ["min", e, sg, ex] => some (.min (lookupExp d e) (lookupCons d ex) (sg == "1"))
+  | ["max", e, sg, ex] => some (.max (lookupExp d e) (lookupCons d ex) (sg == "1"))
+  | ["solution", e, v, ex] => some (.solution (lookupExp d e) (v.toNat?.getD 0) (lookupCons d ex))
+  | ["is_true", c, ex] => (c.toNat?.bind d.cons.get?).map fun c => .isTrue c.1 (lookupCons d ex)
+  | ["is_false", c, ex] => (c.toNat?.bind d.cons.get?).map fun c => .isFalse c.1 (lookupCons d ex)
+  | ["unsat_core", ex] => some (.unsatCore (lookupCons d ex))
+  | ["simplify"] => some .simplify
+  | ["downsize"] => some .downsize
+  | ["branch"] => some .branch
+  | _ => none
+
+def handleUni (d : DState) (args : List String) : DState × String :=
+  -- uni <w0,w1,..> <d0,d1,..>
+  match args with
+  | [ws, ds] =>
+    let widths := (parseList ws).toArray
+    let dflts := (parseList ds).toArray
+    let (strides, D) := widths.foldl (fun (acc : Array Nat × Nat) w => (acc.1.push acc.2, acc.2 * 2 ^ w)) (#[], 1)
+    let u0 : Uni := { nvars := widths.size, widths, strides, dflts, D }
+    let varVal := (Array.range widths.size).map fun v =>
+      (Array.range (2 ^ widths[v]!)).map fun x => maskOf u0 fun a => a v == x
+    ({ d with uni := { u0 with varVal } }, "ok")
+  | _ => (d, "bad-uni")
+
+def parseOptNat (s : String) : Option Nat := if s == "-" then none else s.toNat?
+
+def handleCon (d : DState) (args : List String) : DState × String :=
+  -- con <id> <vars> <isFalse> <conc> <triv> <maskhex>
+  match args with
+  | [id, vars, isF, conc, triv, mask] =>
+    let id := id.toNat?.getD 0
+    let m := parseHex mask
+    let triv := match triv.splitOn ":" with
+      | [v, x, e] => (match v.toNat?, x.toNat?, e.toNat? with | some v, some x, some e => some (v, x, e) | _, _, _ => none)
+      | _ => none
+    let c := conOfMask d.uni id (parseList vars) (isF == "1") ((parseOptNat conc).map (· == 1)) triv m
+    ({ d with cons := d.cons.insert id (c, m) }, "ok")
+  | _ => (d, "bad-con")
+
+def handleExp (d : DState) (args : List String) : DState × String :=
+  -- exp <id> <bits> <vars> <conc> <valhex: 2 hex digits per assignment>
+  match args with
+  | [id, bits, vars, conc, table] =>
+    let id := id.toNat?.getD 0
+    let chars := table.toList.toArray
+    let tbl : Array Nat := (Array.range (chars.size / 2)).map fun i => hexVal chars[2 * i]! * 16 + hexVal chars[2 * i + 1]!
+    let u := d.uni
+    let e : Exp := { id := id, bits := bits.toNat?.getD 1, vars := parseList vars,
+                     val := fun a => tbl.getD (u.index a) 0, conc := parseOptNat conc }
+    ({ d with exps := d.exps.insert id e }, "ok")
+  | _ => (d, "bad-exp")
+
+def handleBld (d : DState) (args : List String) : DState × String :=
+  -- bld <keystring> <conid>     checks that the AST claripy built means what the key says
+  match args with
+  | [key, cid] =>
+    let cid := cid.toNat?.getD 0
+    let d := { d with builds := d.builds.insert key cid }
+    let parts := key.splitOn ":"
+    let bk : Option BuildKey := match parts with
+      | [k, e, a] =>
+        (d.exps.get? (e.toNat?.getD 0)).bind fun x =>
+          match k with
+          | "ule" => some (.ule x (parseIntD a)) | "uge" => some (.uge x (parseIntD a))
+          | "sle" => some (.sle x (parseIntD a)) | "sge" => some (.sge x (parseIntD a))
+          | "ne" => some (.ne x (a.toNat?.getD 0)) | "oreq" => some (.orEq x (parseList a))
+          | _ => none
+      | _ => none
+    match bk, d.cons.get? cid with
+    | some bk, some (c, m) =>
+      let ok := maskOf d.uni bk.sem == m && subsetB c.vars bk.exp.vars
+      (d, if ok then "ok" else s!"build-mismatch {key}")
+    | _, _ => (d, s!"bad-bld {key}")
+  | _ => (d, "bad-bld")
+
+def specDom (d : DState) : List Asg := (List.range d.uni.D).map d.uni.asg
+
+def handleOp (d : DState) (args : List String) : DState × String :=
+  -- op <i> <name> <args...> ;; <events...>
+  let (opToks, evToks) := args.span (· != ";;")
+  let evToks := evToks.drop 1
+  match opToks with
+  | i :: rest =>
+    let i := i.toNat?.getD 0
+    match parseOp d rest with
+    | none => (d, "bad-op")
+    | some op =>
+      let events := (evToks.filterMap parseEvent).toArray
+      let badEv := events.size != evToks.length
+      let E := mkEnv d events
+      let w0 := { d.world with tick := 0, qlog := [] }
+      let (out, w) := step E d.cls w0 i op
+      -- reference list of user constraints
+      let added := match op with
+        | .add cs => d.added.modify i (· ++ cs.map (·.id))
+        | .branch => d.added.push (d.added.getD i [])
+        | _ => d.added
+      let diags := Id.run do
+        let mut ds : List String := []
+        if badEv then ds := ds ++ ["bad-event"]
+        if w.tick != events.size then ds := ds ++ [s!"events-consumed={w.tick}/{events.size}"]
+        let mut k := w.qlog.length
+        for (q, a) in w.qlog do
+          k := k - 1
+          if !exactOn d q a then ds := ds ++ [s!"inexact@{k}"]
+        -- the property itself, on the model's answer, by the executable reference
+        let userCons := (d.added.getD i []).filterMap fun c => (d.cons.get? c).map (·.1)
+        let userCons := match op with | .add cs => userCons ++ cs | _ => userCons
+        match judgeFin (specDom d) userCons op out with
+        | none => pure ()
+        | some why => ds := ds ++ ["spec:" ++ why]
+        return ds
+      ({ d with world := w, added := added },
+       showOut out ++ " ;; " ++ showWorld w ++ " ;; " ++ (if diags.isEmpty then "-" else ",".intercalate diags))
+  | _ => (d, "bad-op")
+
+def dispatch (d : DState) (line : String) : DState × String :=
   match (line.trimAscii.toString.splitOn " ").filter (· ≠ "") with
-  | _ => "bad-op"
+  | "uni" :: args => handleUni d args
+  | "con" :: args => handleCon d args
+  | "exp" :: args => handleExp d args
+  | "bld" :: args => handleBld d args
+  | ["falsecon", id] => ({ d with falseId := id.toNat?.getD 0 }, "ok")
+  | ["new", cls, track, reuse] =>
+    (match clsOfString cls with
+     | some c => ({ d with cls := c, world := World.init (track == "1") (reuse == "1"), added := #[[]] }, "ok")
+     | none => (d, "bad-class"))
+  | "op" :: args => handleOp d args
+  | _ => (d, "bad-op")
 
-partial def loop (h : IO.FS.Stream) (out : IO.FS.Stream) : IO Unit := do
+end DriverSolver
+
+partial def loop (h : IO.FS.Stream) (out : IO.FS.Stream) (d : DriverSolver.DState) : IO Unit := do
   let line ← h.getLine
   if line.isEmpty then return ()
-  out.putStrLn (dispatch line)
-  loop h out
+  let (d', ans) := DriverSolver.dispatch d line
+  out.putStrLn ans
+  loop h out d'
 
 def main : IO Unit := do
   let out ← IO.getStdout
-  loop (← IO.getStdin) out
+  loop (← IO.getStdin) out {}
   out.flush
